@@ -175,6 +175,24 @@ def assume_forall(fn, lo=None):
         c.assume(fn(t))
 
 
+def forall_hyp(fn):
+    """hypothesis (forall j. fn(j)) used by instantiation only: fn(t) is assumed for every index term t noted on this
+    path, now and later.  fn may itself introduce fresh symbols (e.g. for a division by a symbolic divisor), which a
+    real quantifier could not.  Weaker than the quantified hypothesis, hence sound."""
+    c = ctx()
+    c.__dict__.setdefault('foralls', []).append(fn)
+    for t in list(c.__dict__.setdefault('index_terms', [])):
+        c.assume(_b(fn(t)) if not isinstance(fn(t), z3.ExprRef) else fn(t))
+
+
+def forall_goal(fn):
+    """goal (forall j. fn(j)): skolemised with a fresh constant, which is also noted as an index term"""
+    c = ctx()
+    k = c.fresh_int('sk')
+    note_index(k)
+    return fn(k)
+
+
 def note_index(*terms):
     c = ctx()
     its = c.__dict__.setdefault('index_terms', [])
@@ -183,8 +201,9 @@ def note_index(*terms):
         if any(t.eq(u) for u in its):
             continue
         its.append(t)
-        for fn in c.__dict__.setdefault('foralls', []):
-            c.assume(fn(t))
+        for fn in list(c.__dict__.setdefault('foralls', [])):
+            r = fn(t)
+            c.assume(r if isinstance(r, z3.ExprRef) else _b(r))
 
 
 def _t(x):
